@@ -245,6 +245,9 @@ func (m *model) execute(a string) (string, error) {
 		s.Created++
 		s.Edits++
 		return m.libGraphQL(b, s)
+	case "session-config":
+		s.Edits++
+		return m.libSessionConfig(s)
 	}
 	return "", fmt.Errorf("unknown action %s", a)
 }
@@ -447,6 +450,48 @@ func (m *model) libBridge() (string, error) {
 		}
 	}
 	return "ok-configured", nil
+}
+
+// libSessionConfig: one git-bug handle stays open (a command waiting at a prompt, a bridge import, the
+// web UI) while the host uses stock git on the same repository. The handle has read configuration
+// before; the host then sets a key of its own (or removes it again, alternately) and adds or removes a
+// remote; then the handle stores one of git-bug's keys. What the host did in between must survive.
+func (m *model) libSessionConfig(s *st) (string, error) {
+	repo, err := repository.OpenGoGitRepo(m.host(), world.Namespace, nil)
+	if err != nil {
+		return errTag(err), nil
+	}
+	defer repo.Close()
+	_, _ = repo.LocalConfig().ReadString("user.name")
+	_, _ = repo.AnyConfig().ReadString("user.email")
+	_, _ = repo.LocalConfig().ReadAll("git-bug.")
+	_, _ = repo.GetRemotes()
+	what := "host-set"
+	if _, err := git(m.host(), "config", "--get", "verifhost.during-session"); err == nil {
+		what = "host-unset"
+		if _, err := git(m.host(), "config", "--unset", "verifhost.during-session"); err != nil {
+			return "", err
+		}
+		if _, err := git(m.host(), "remote", "remove", "upstream"); err != nil {
+			return "", err
+		}
+	} else {
+		if _, err := git(m.host(), "config", "verifhost.during-session", "merge.conflictstyle=diff3"); err != nil {
+			return "", err
+		}
+		if _, err := git(m.host(), "remote", "add", "upstream", m.remote()); err != nil {
+			return "", err
+		}
+	}
+	mid, err := takeFrame(m.host(), m.hostGit())
+	if err != nil {
+		return "", fmt.Errorf("frame of the host: %w", err)
+	}
+	m.midHost = mid
+	if err := repo.LocalConfig().StoreString("git-bug.verif-session", fmt.Sprint(s.Edits)); err != nil {
+		return errTag(err), nil
+	}
+	return "ok-" + what, nil
 }
 
 // libGraphQL sends one mutation to the real GraphQL handler, wired as the web UI wires it.
